@@ -286,6 +286,10 @@ func (obj *Package) Set(name string, value Object, privates ...bool) (vv *VarVal
 		vv = &VarVal{Val: value, Pkg: obj, name: name}
 		obj.mu.Lock()
 		obj.vars[name] = vv
+		if obj.exports(name) {
+			vv.Export = true
+			obj.passVarToUsers(name, vv)
+		}
 		obj.mu.Unlock()
 	}
 	callSetHooks(vv.Pkg, name)
@@ -315,13 +319,7 @@ func (obj *Package) SetIfHas(name string, value Object, private bool) (vv *VarVa
 				vv.Val = value
 			}
 			if vv.Export {
-				for _, u := range obj.Users {
-					u.mu.Lock()
-					if _, has := u.vars[name]; !has {
-						u.vars[name] = vv
-					}
-					u.mu.Unlock()
-				}
+				obj.passVarToUsers(name, vv)
 			}
 		}
 	}
@@ -482,30 +480,20 @@ func (obj *Package) Define(creator func(args List) Object, doc *FuncDoc, aux ...
 func (obj *Package) Export(name string) {
 	name = strings.ToLower(name)
 	obj.mu.Lock()
-	obj.Exports = append(obj.Exports, name)
+	if !obj.exports(name) {
+		obj.Exports = append(obj.Exports, name)
+	}
 	if obj.funcs != nil {
-		if fi := obj.funcs[name]; fi != nil {
+		if fi := obj.funcs[name]; fi != nil && fi.Pkg == obj {
 			fi.Export = true
-			for _, u := range obj.Users {
-				u.mu.Lock()
-				if xf := u.funcs[name]; xf == nil {
-					u.funcs[name] = fi
-				}
-				u.mu.Unlock()
-			}
+			obj.passFuncToUsers(name, fi)
 		}
 	}
 	if obj.vars != nil {
-		if vv := obj.vars[name]; vv != nil {
+		if vv := obj.vars[name]; vv != nil && vv.Pkg == obj {
 			vv.Export = true
-			for _, u := range obj.Users {
-				u.mu.Lock()
-				if xv := u.vars[name]; xv == nil {
-					u.vars[name] = vv
-				}
-				u.mu.Unlock()
-			}
-		} else {
+			obj.passVarToUsers(name, vv)
+		} else if vv == nil {
 			vv := newUnboundVar(name)
 			vv.Export = true
 			vv.Pkg = obj
@@ -519,7 +507,12 @@ func (obj *Package) Export(name string) {
 func (obj *Package) Unexport(name string) {
 	name = strings.ToLower(name)
 	obj.mu.Lock()
-	// TBD remove from Exports list
+	for i, x := range obj.Exports {
+		if x == name {
+			obj.Exports = append(obj.Exports[:i], obj.Exports[i+1:]...)
+			break
+		}
+	}
 	if obj.funcs != nil {
 		if fi := obj.funcs[name]; fi != nil {
 			fi.Export = false
@@ -542,9 +535,47 @@ func (obj *Package) Unexport(name string) {
 				}
 				u.mu.Unlock()
 			}
+			if vv.Pkg == obj && Unbound == vv.Val {
+				// Only a placeholder for the exported name.
+				delete(obj.vars, name)
+			}
 		}
 	}
 	obj.mu.Unlock()
+}
+
+// passVarToUsers makes an exported variable visible in the packages using
+// this package unless they have an entry of their own or from another package.
+func (obj *Package) passVarToUsers(name string, vv *VarVal) {
+	for _, u := range obj.Users {
+		u.mu.Lock()
+		if xv := u.vars[name]; xv == nil || xv.Pkg == obj {
+			u.vars[name] = vv
+		}
+		u.mu.Unlock()
+	}
+}
+
+// passFuncToUsers makes an exported function visible in the packages using
+// this package unless they have an entry of their own or from another package.
+func (obj *Package) passFuncToUsers(name string, fi *FuncInfo) {
+	for _, u := range obj.Users {
+		u.mu.Lock()
+		if xf := u.funcs[name]; xf == nil || xf.Pkg == obj {
+			u.funcs[name] = fi
+		}
+		u.mu.Unlock()
+	}
+}
+
+// exports returns true if the name has been exported with a call to Export.
+func (obj *Package) exports(name string) bool {
+	for _, x := range obj.Exports {
+		if x == name {
+			return true
+		}
+	}
+	return false
 }
 
 // Undefine a function.
@@ -948,9 +979,13 @@ func (obj *Package) DefLambda(name string, lam *Lambda, fc func(args List) Objec
 			Kind:   kind,
 		}
 		obj.funcs[name] = &fi
-		if vv := obj.vars[name]; vv != nil && Unbound == vv.Val && vv.Export {
+		if obj.exports(name) {
 			fi.Export = true
-			delete(obj.vars, name)
+			if vv := obj.vars[name]; vv != nil && Unbound == vv.Val && vv.Pkg == obj {
+				// The placeholder for the exported name is no longer needed.
+				delete(obj.vars, name)
+			}
+			obj.passFuncToUsers(name, &fi)
 		}
 	}
 	obj.mu.Unlock()
